@@ -19,6 +19,7 @@ func init() {
 			{"TARGET-HEIGHT", ruleTargetHeight},
 			{"WALKBACK-KEEPS-LOWER", ruleWalkBackKeepsLower},
 			{"QUEUE-ONCE", ruleQueueOnce},
+			{"LINKED-DOC-COMMIT-ONCE", ruleLinkedDocCommitOnce},
 			{"NONCE", ruleNonce},
 			{"NO-RESURRECT", ruleNoResurrect},
 			{"DELETED-REDIRECT", ruleDeletedRedirect},
